@@ -84,6 +84,10 @@ def run(chk, build, replay=None):
     # the class header (bases, metaclass, keywords, decorators) resolved in every kind of defining scope
     placed = [s for _, s in gen_place.class_placements()]
     srcs += placed
+    # method kinds decided by what the decorators RETURN (callable instances, partials, builtins, plain functions) on ordinary
+    # methods, static methods and on the two implicit class methods
+    from harness.props import c11
+    srcs += [s for _, s in c11.hook_programs()]
     replayed = propkit.load_replay_sources(replay)
     if replayed:
         srcs = replayed
